@@ -318,6 +318,7 @@ class Sim:
         self.obj_seq = 0
         self.fault_counts = {}
         self.probes = {}
+        self.fault_time = 0.0      # simulated seconds of injected network silence
         self.last_fault_decision = 0
         self.last_fault_time = 0.0
         self.thread_steps = 0
@@ -625,7 +626,7 @@ class Sim:
                     self.thread_steps - self.thread_steps_at_last_fault > self.steps_after_fault:
                 self.outcome = 'step_budget'
                 return
-            if self.now > self.max_time:
+            if self.now - self.fault_time > self.max_time:
                 self.outcome = 'time_budget'
                 return
         unfinished = [t for t in threads if not t.finished and not t.dead]
